@@ -35,9 +35,34 @@ pub fn model(p: Prof, op: Op, s: &str, tr: &mut Trace) -> Alts {
     }
 }
 pub fn imp(p: Prof, op: Op, s: &str) -> Result<RRes, String> {
-    guard(|| match op {
-        Op::Prepare => imp_prepare(p, s),
-        Op::Enforce => imp_enforce(p, s),
+    guard(|| {
+        let borrowed = match op {
+            Op::Prepare => imp_prepare(p, s),
+            Op::Enforce => imp_enforce(p, s),
+        };
+        // the same call with an owned argument that has spare capacity must give the same content (in-place fast paths);
+        // a difference is reported as the observed value so that it fails against the model
+        let owned = imp_owned(p, op, s);
+        if owned != borrowed {
+            return Err(RErr::Missing { cp: 0xffff_fff0, pos: 0, prop: crate::ucd::Dpv::Disallowed }).or_else(|_: RErr| -> RRes { Ok(format!("<<owned argument gives {} but borrowed argument gives {}>>", fmt_res(&owned), fmt_res(&borrowed))) });
+        }
+        borrowed
+    })
+}
+fn imp_owned(p: Prof, op: Op, s: &str) -> RRes {
+    use precis_core::profile::Profile;
+    use precis_profiles::{Nickname, OpaqueString, UsernameCaseMapped, UsernameCasePreserved};
+    let mut o = String::with_capacity(s.len() * 2 + 77);
+    o.push_str(s);
+    obs(&match (p, op) {
+        (Prof::UserMapped, Op::Prepare) => UsernameCaseMapped::new().prepare(o),
+        (Prof::UserMapped, Op::Enforce) => UsernameCaseMapped::new().enforce(o),
+        (Prof::UserPreserved, Op::Prepare) => UsernameCasePreserved::new().prepare(o),
+        (Prof::UserPreserved, Op::Enforce) => UsernameCasePreserved::new().enforce(o),
+        (Prof::Opaque, Op::Prepare) => OpaqueString::new().prepare(o),
+        (Prof::Opaque, Op::Enforce) => OpaqueString::new().enforce(o),
+        (Prof::Nick, Op::Prepare) => Nickname::new().prepare(o),
+        (Prof::Nick, Op::Enforce) => Nickname::new().enforce(o),
     })
 }
 
